@@ -18,7 +18,8 @@ EXTENDS GrepModel, TLC, Json
 CONSTANTS Seeds,          \* set of initial (partial) scenario choices; parallelises scenario generation
           ScenariosOf(_),  \* seed -> set of scn records
           MaxRead,         \* bound on bytes returned by one read()
-          KF_FastInvertSkipsStopLine  \* named deviation: behaviour before the "fix:" commit (for regression demos)
+          KF_FastInvertSkipsStopLine, \* named deviations: behaviour before the "fix:" commits (for regression demos)
+          KF_ReaderByteCountIgnoresPartial
 
 VARIABLES scn, pc,
           base, pos, lastterm, end, cap, binoff,       \* LineBuffer (binoff: 0 = None, else offset+1)
@@ -66,7 +67,8 @@ Preceding(v, lo, hi, count) ==
 LineHas(v, s, e, b) == \E i \in s..(e-1) : inp[v.o + i + 1] = b
 
 \* ---------------------------------------------------------------- the sink machine
-\* st = core record: [cp, abs, lc, ln, lv, al, hs, hm, bo, out, halt]
+\* st = core record: [cp, abs, lc, ln, lv, al, hs, hm, bo, out, halt, pt]
+\*   pt: ReadByLine::run's `partial` (bytes of the current buffer searched before a requested stop)
 \*   halt: "no" | "stop" (a callback returned false / detect_binary said quit / stop_on_nonmatch) | "err"
 Emit(st, ev) ==
   LET o2 == Append(st.out, ev)
@@ -216,7 +218,7 @@ CoreRoll(st, v) ==
 
 \* ---------------------------------------------------------------- initial state
 Core0 == [cp |-> 0, abs |-> 0, lc |-> 0, ln |-> 1, lv |-> 0, al |-> 0, hs |-> FALSE, hm |-> FALSE,
-          bo |-> 0, out |-> <<>>, halt |-> "no"]
+          bo |-> 0, out |-> <<>>, halt |-> "no", pt |-> 0]
 
 Init == /\ scn \in Seeds
         /\ pc = "pick"
@@ -322,7 +324,8 @@ PostFill ==
 
 Match ==
   /\ pc = "match"
-  /\ core' = MatchByLine(core, RollView)
+  /\ core' = LET c == MatchByLine(core, RollView) IN
+             IF c.halt = "stop" /\ ~KF_ReaderByteCountIgnoresPartial THEN [c EXCEPT !.pt = c.cp] ELSE c
   /\ pc' = AfterHalt("fill")
   /\ result' = IF core'.halt = "err" THEN "err_sink" ELSE result
   /\ UNCHANGED <<scn, LB, FillLocals, nreads, reads>>
@@ -341,7 +344,7 @@ SliceRun ==
 
 Finish ==
   /\ pc = "finish"
-  /\ LET bytes == IF scn.strat = "reader" THEN base + pos
+  /\ LET bytes == IF scn.strat = "reader" THEN base + pos + core.pt
                   ELSE IF core.bo > 0 /\ core.bo - 1 < core.cp THEN core.bo - 1 ELSE core.cp
          bo == IF scn.strat = "reader" THEN binoff ELSE core.bo
      IN core' = [core EXCEPT !.out = Append(@, Ev("finish", bo, bytes, 1))]
